@@ -60,6 +60,27 @@ def judge(rec, r):
     return None
 
 
+def apalache_scope():
+    """thorough tier only, reported and never gating: the scoping invariants of Scope.tla as an INDUCTIVE invariant
+    (spec/ScopeInd.tla, Apalache: Init => IndInv, IndInv /\\ Next => IndInv') - for walks of any length"""
+    import shutil
+    import subprocess
+    if not shutil.which("apalache-mc"):
+        return "apalache-mc not found"
+    wd = vlib.workdir("c02_apalache")
+    shutil.copy(os.path.join(vlib.SPEC, "ScopeInd.tla"), wd)
+    out = []
+    for args in (["--init=Init", "--length=0"], ["--init=IndInit", "--length=1"]):
+        try:
+            r = subprocess.run(["apalache-mc", "check", "--cinit=ConstInit", "--inv=IndInv"] + args + ["ScopeInd.tla"], cwd=wd,
+                               capture_output=True, text=True, timeout=900)
+            out.append("NoError" if "The outcome is: NoError" in r.stdout else "outcome: " + (r.stdout[-200:] or r.stderr[-200:]))
+        except subprocess.TimeoutExpired:
+            out.append("timeout")
+    shutil.rmtree(os.path.join(wd, "_apalache-out"), ignore_errors=True)
+    return {"base_case": out[0], "inductive_step": out[1]}
+
+
 def main():
     tier = sys.argv[1] if len(sys.argv) > 1 else vlib.TIER
     vlib.TIER = tier
@@ -105,6 +126,8 @@ def main():
         rep.add("scope-trace-rejected:%s:%s:%s" % (table, stage, first.get("op", first.get("ev"))), labels=labels_of(rec),
                 detail={"edits": rec["edits"], "first_unmatched_record": first, "walk": stage},
                 replay={"text": cases[i]["files"][0]["text"], "cmd": "vph analyze"})
+    if tier != "quick":
+        cov["apalache_inductive_invariant_ScopeInd"] = apalache_scope()
     cov["units"] = len(recs)
     cov["valid_units"] = sum(1 for x in recs if not x["violated"])
     cov["single_fault_units"] = sum(1 for x in recs if len(x["violated"]) == 1)
